@@ -21,18 +21,18 @@ static void h_unref(MPT_STRUCT(buffer) *b) { (void) b; }
 static uintptr_t h_addref(MPT_STRUCT(buffer) *b) { (void) b; return 1; }
 static MPT_STRUCT(buffer) *h_detach(MPT_STRUCT(buffer) *b, size_t n)
 {
-	size_t nd_sz, sz;
+	size_t sz;
 	h_detaches++;
 	if (h_detaches > h_alloc_fails_at) return 0;          /* allocation may fail at any attempt */
 	if (n <= b->_size) return b;
-	sz = nd_sz; __CPROVER_assume(sz >= n && sz <= n + 128);
+	V_ND(size_t, sz); __CPROVER_assume(sz >= n && sz <= n + 128);
 	*((size_t *) &b->_size) = sz;
 	return b;
 }
 static const MPT_INTERFACE_VPTR(buffer) h_vptr = { h_flags, h_unref, h_addref, h_detach };
 MPT_STRUCT(buffer) *_mpt_buffer_alloc(size_t len, int flags)
 {
-	size_t nd_sz, sz = nd_sz; (void) flags;
+	size_t sz; (void) flags; V_ND(size_t, sz);
 	h_detaches++;
 	if (h_detaches > h_alloc_fails_at) return 0;
 	__CPROVER_assume(sz >= len && sz <= len + 128);
@@ -46,7 +46,7 @@ void *mpt_array_insert(MPT_STRUCT(array) *a, size_t pos, size_t len) { (void) a;
 static const uint8_t *g_data; static size_t g_len, g_consumed; static int g_calls, g_term_calls, g_bad;
 static ssize_t h_enc(MPT_STRUCT(encode_state) *st, const struct iovec *out, const struct iovec *src)
 {
-	size_t room, nd_take, take;
+	size_t room, take;
 	if (!out) { st->done = st->scratch = 0; st->_ctx = 0; return 0; }
 	g_calls++;
 	/* the output vector is the buffer area from the finished frames on, the state fits into it */
@@ -62,7 +62,7 @@ static ssize_t h_enc(MPT_STRUCT(encode_state) *st, const struct iovec *out, cons
 	/* data: exactly the not yet consumed rest of the caller's bytes */
 	__CPROVER_assert(src->iov_base == (void *) (g_data + g_consumed) && src->iov_len == g_len - g_consumed, "push: the encoder is handed exactly the unconsumed rest of the data");
 	if (room < 2) return MPT_ERROR(MissingBuffer);
-	take = nd_take; __CPROVER_assume(take >= 1 && take <= src->iov_len && take < room);
+	V_ND(size_t, take); __CPROVER_assume(take >= 1 && take <= src->iov_len && take < room);
 	/* the encoder stops early only because the output space is (nearly: block overhead) used up */
 	__CPROVER_assume(take == src->iov_len || room - take <= 3);
 	st->scratch += take; if (!st->done && 0) st->done = 0;
